@@ -1,6 +1,7 @@
 package main
 
 import (
+	"time"
 	"crypto/sha256"
 	"encoding/json"
 	"fmt"
@@ -164,4 +165,17 @@ func guard(f func() string) (res string) {
 		}
 	}()
 	return f()
+}
+
+// withTimeout runs f in a goroutine (panics recovered there) and maps a call that does not return
+// within 10 s to "err hang".
+func withTimeout(f func() string) string {
+	ch := make(chan string, 1)
+	go func() { ch <- guard(f) }()
+	select {
+	case s := <-ch:
+		return s
+	case <-time.After(10 * time.Second):
+		return "err hang"
+	}
 }
